@@ -24,6 +24,7 @@ class Exec(ExprMixin, AccessMixin, CallMixin, StmtMixin, SpecMixin, HeapMixin, O
 
   def __init__(self, ctx):
     self.ctx = ctx
+    State.private_keys = frozenset(ctx.registry.private_fields)
     self.call_stack = []
     self.cur_func = None
     self.cur_node = None
@@ -49,8 +50,9 @@ class Exec(ExprMixin, AccessMixin, CallMixin, StmtMixin, SpecMixin, HeapMixin, O
         term = z3.IntVal(oid)
       v = self.wrap(st, term, kind)
       if t == 'ref' and isinstance(v.cls, ClassInfo):
-        subs = self.ctx.registry.subclasses(v.cls)
+        subs = [c for c in self.ctx.registry.subclasses(v.cls) if not c.is_abstract_class] or self.ctx.registry.subclasses(v.cls)
         st.assume(z3.Or(term == 0, *[st.classof(term) == c.uid for c in subs]))
+        self.assume_class_invariants(st, v)
       if t in ('list', 'tuple'):
         st.assume(z3.Or(term == 0, self.list_len(st, VRef(t, term)) >= 0))
       if t in ('list', 'tuple', 'dict', 'set'):
@@ -79,10 +81,24 @@ class Exec(ExprMixin, AccessMixin, CallMixin, StmtMixin, SpecMixin, HeapMixin, O
     env = self.contract_env(st, con, finfo, args, kwargs)
     site = '%s->%s' % (self.cur_func.qualname if self.cur_func else '?', con.name)
     caller_env = st.env
+    # a parameter the contract declares as ref:X, passed an object statically known only as a base class of X: the
+    # declared class is an (implicit) precondition, checked here, and the contract is read with the narrowed view
+    for pname, kind in con.params.items():
+      a = env.get(pname)
+      if kind.tag == 'ref' and isinstance(a, VRef) and isinstance(a.cls, ClassInfo) and not self.spec_mode:
+        want = self.ctx.registry.class_named(kind.arg)
+        if isinstance(want, ClassInfo) and want is not a.cls and want.is_subclass_of(a.cls):
+          st.env = caller_env
+          self.ctx.obligations.append(Obligation(
+              '%s/pre.%s.%s_is_a_%s@%s' % (self.ctx.unit, con.name, pname, want.name, self.stmt_key(self.cur_node)), 'pre',
+              list(st.pc), z3.Or(a.t == 0, self.isinstance_term(st, a, VClass(want))), site, {}))
+          env[pname] = VRef(want, a.t, nullable=a.nullable, elem=a.elem)
     st.env = env
     try:
       if not self.spec_mode:
         for rname, rexpr in con.requires_:
+          if self.mentions_unset_ghost(st, rexpr):
+            continue
           self.spec_obligation(st, rexpr, '%s/pre.%s.%s@%s' % (self.ctx.unit, con.name, rname, self.stmt_key(self.cur_node)),
                                'pre', where=site)
           st.assume(self.eval_spec_merged(st, rexpr))
@@ -99,7 +115,7 @@ class Exec(ExprMixin, AccessMixin, CallMixin, StmtMixin, SpecMixin, HeapMixin, O
         if con.modifies_ is None:
           self.havoc_heap(s, ['*'])
         else:
-          self.havoc_heap(s, con.modifies_, None)
+          self.havoc_heap(s, [m for m in con.modifies_ if not self.mentions_unset_ghost(s, m)], None)
         saved_old = self.old_state
         self.old_state = old
         self._calls = getattr(self, '_calls', 0) + 1
@@ -110,13 +126,23 @@ class Exec(ExprMixin, AccessMixin, CallMixin, StmtMixin, SpecMixin, HeapMixin, O
             result = NONE
             if con.returns_ is not None and con.function_of_ is not None:
               saved_env = s.env
-              argv = [self.to_val(s, self.eval_spec_value(old, e)) for e in con.function_of_]
-              f = z3.Function('fn_' + con.name.replace('.', '_'), *([Val] * len(argv) + [con.returns_.sort()]))
+              from pyvc.values import VSnap
+              argv = []
+              for e in con.function_of_:
+                av = self.eval_spec_value(old, e)
+                if isinstance(av, VSnap):
+                  argv.extend([av.a, av.b])        # a container snapshot: the function depends on its contents
+                else:
+                  argv.append(self.to_val(s, av))
+              f = z3.Function('fn_' + con.name.replace('.', '_').replace('[', '_').replace(']', '_'),
+                              *([a.sort() for a in argv] + [con.returns_.sort()]))
               result = self.wrap(s, f(*argv), con.returns_)
             elif con.returns_ is not None:
               result = self.make_result(s, con.returns_)
             extra = {'result': result}
             for ename, eexpr in con.ensures_:
+              if self.mentions_unset_ghost(s, eexpr):
+                continue
               s.assume(self.eval_spec_merged(s, eexpr, extra))
             hook = con.hooks.get('after_call')
             if hook:
@@ -235,6 +261,10 @@ class Exec(ExprMixin, AccessMixin, CallMixin, StmtMixin, SpecMixin, HeapMixin, O
     for pname, pv in args_env.items():
       self.observe_object(st, pname, pv)
     for g, kind in con.ghost_.items():
+      if kind == 'seq':
+        from pyvc.values import VSeq
+        st.ghost[g] = VSeq(z3.Const('ghost_' + g, z3.ArraySort(z3.IntSort(), Val)))
+        continue
       st.ghost[g] = self.make_input(st, 'ghost_' + g, kind)
     env = {'$module': finfo.module, '$closure': pre_made.get('$closure'), '$func': finfo}
     env.update(args_env)
@@ -293,6 +323,13 @@ class Exec(ExprMixin, AccessMixin, CallMixin, StmtMixin, SpecMixin, HeapMixin, O
       ctx.obligations.append(Obligation('%s/cover.paths' % ctx.unit, 'cover', [], z3.BoolVal(False), '',
                                         {'msg': 'no feasible path through the function'}))
     return {'paths': paths}
+
+  _GHOST_RE = __import__('re').compile(r"ghost\('([^']+)'\)")
+
+  def mentions_unset_ghost(self, st, expr):
+    """Call sites only: a contract clause over a ghost variable that the unit under verification did not declare
+    constrains nothing the unit can observe and is skipped."""
+    return any(g not in st.ghost for g in self._GHOST_RE.findall(expr))
 
   def observe_object(self, st, label, v):
     if isinstance(v, VRef) and isinstance(v.cls, ClassInfo):
